@@ -119,9 +119,15 @@ def strip_comments(src):
     return "".join(out)
 
 
+def mods(module):
+    """a plugin's MODULE is one module name or a list of them (the property's own proof file first, then files of
+    corollaries that import several proof files and so cannot be imported by any of them)"""
+    return [module] if isinstance(module, str) else list(module)
+
+
 def lean_files_of(module):
     """transitive local imports of a Marwood module (files under lean/)"""
-    seen, todo = [], [module]
+    seen, todo = [], mods(module)
     while todo:
         m = todo.pop()
         if m in seen:
@@ -146,7 +152,7 @@ def check_proofs(ctx, module, theorems):
         # correspondence/oracle side alone with the driver that is already built (never used by a registered check)
         ctx.notes.append("VERIF_SKIP_PROOFS set: proof obligations not rebuilt in this run")
         return [], ""
-    ok, log = lake_build([module, "driver"])
+    ok, log = lake_build(mods(module) + ["driver"])
     broken = []
     if not ok:
         # which theorems are affected? report the module's errors
@@ -161,7 +167,7 @@ def check_proofs(ctx, module, theorems):
         if hit:
             ctx.notes.append(f"forbidden construct {hit.group(0)!r} in {m}")
             return list(theorems), log
-    audit = "import %s\n" % module + "".join("#print axioms %s\n" % t for t in theorems)
+    audit = "".join("import %s\n" % m for m in mods(module)) + "".join("#print axioms %s\n" % t for t in theorems)
     ap = os.path.join(LEAN, ".lake", "audit_%s.lean" % ctx.prop)
     open(ap, "w").write(audit)
     r = sh(["lake", "env", "lean", ap], cwd=LEAN, timeout=1800)
@@ -186,7 +192,7 @@ def check_proofs(ctx, module, theorems):
 
 
 def leanchecker(module):
-    r = sh(["lake", "env", "leanchecker", module], cwd=LEAN, timeout=3600)
+    r = sh(["lake", "env", "leanchecker"] + mods(module), cwd=LEAN, timeout=3600)
     return r.returncode == 0, r.stdout + r.stderr
 
 
@@ -450,7 +456,7 @@ def standard_run(ctx, module, theorems, bins, streams_fn, rule, trusted_extra=No
           "hand-written Lean model tied to /repo by the correspondence streams listed under coverage.streams",
           "harness generators and canonicalisers in /verif/harness, pipeline in /verif/lib"]
     tb += trusted_extra or []
-    return finish(ctx, rule, "cd /verif/lean && lake build %s && lake env lean .lake/audit_%s.lean" % (module, ctx.prop), tb)
+    return finish(ctx, rule, "cd /verif/lean && lake build %s && lake env lean .lake/audit_%s.lean" % (" ".join(mods(module)), ctx.prop), tb)
 
 
 def settle(ctx, md, sd, max_report=3):
